@@ -164,6 +164,15 @@ def _what(f: dict) -> str:
             f"[{f['key']}] on grammar {fam or 'G'}" + (f" nonterminal {c['nt']}" if c.get("nt") else ""))
 
 
+def _preimport():
+    """Under ./check (OMP_NUM_THREADS=1) import torch and fggs once in the parent so that the forked
+    workers do not each pay for the import; otherwise leave the import to the workers (fork-safe)."""
+    if os.environ.get("OMP_NUM_THREADS") == "1":
+        import torch
+        import fggs  # noqa
+        torch.set_num_threads(1)
+
+
 def run_bounded(ctx: Ctx) -> Report:
     rep = Report(property_id=PID, level="exploration")
     rep.functions_under_contract = ["fggs.sum_product.sum_product", "fggs.sum_product.sum_products"]
@@ -188,6 +197,7 @@ def run_bounded(ctx: Ctx) -> Report:
     fails: List[dict] = []
     evals = 0
     if jobs > 1:
+        _preimport()
         with mp.get_context("fork").Pool(jobs) as pool:
             for fl, n in pool.imap(_worker, chunks):
                 fails.extend(fl)
